@@ -164,7 +164,7 @@ TOKEN_KIND = {"*ua.AnonymousIdentityToken": 0, "*ua.UserNameIdentityToken": 1, "
 
 def project(dump):
     """Returns (coq econfig term, remainder of the dump with every modelled leaf removed, list of problems)."""
-    d = copy.deepcopy(dump)
+    d = strip(copy.deepcopy(dump))
     problems = []
     cfg = d["cfg"]["to"]
     # Client.stateCh/stateFunc are copies of the config's
@@ -229,10 +229,36 @@ def project(dump):
     loc = ss.pop("LocaleIDs")
     session = "(SS %s %s %s %s %s %s %s %s %s)" % (
         Z(ss.pop("SessionTimeout")), B(S(cd.pop("ApplicationURI"))), B(S(cd.pop("ProductURI"))), B(text),
-        "None" if loc is None else "(Some [%s])" % ";".join(B(S(x)) for x in loc), B(S(ss.pop("SessionName"))), token,
+        "None" if loc is None else "(Some [%s])" % ";".join(B(S(x)) for x in loc), B(S(ss.pop("SessionName"))),
+        "None" if token == "None" else "(Some 0%nat)",
         B(S(ss.pop("AuthPolicyURI"))), B(S(ss.pop("AuthPassword"))))
-    term = "(EC %s %s %s %s %s %s %s)" % (net, ack, isdef, sechan, session, N(statech), N(statefn))
+    term = "(EC %s %s %s %s %s %s %s %s)" % (net, ack, isdef, sechan, session, token, N(statech), N(statefn))
     return term, d, problems
+
+
+def strip(d):
+    """remove the pointer addresses ("@") from a dump"""
+    if isinstance(d, dict):
+        return {k: strip(v) for k, v in d.items() if k != "@"}
+    if isinstance(d, list):
+        return [strip(x) for x in d]
+    return d
+
+
+def pointers(d, path="", acc=None):
+    """address -> path of every pointer in a dump"""
+    if acc is None:
+        acc = {}
+    if isinstance(d, dict):
+        if "@" in d:
+            acc.setdefault(d["@"], path)
+        for k, v in d.items():
+            if k != "@":
+                pointers(v, path + "/" + k, acc)
+    elif isinstance(d, list):
+        for i, x in enumerate(d):
+            pointers(x, "%s/%d" % (path, i), acc)
+    return acc
 
 
 def first_diff(a, b, path=""):
@@ -266,8 +292,23 @@ def oracle(o, baseline):
     out = []
     prog = o["prog"]
     created_at = {}
+    pristine = strip(o["pristine"])
     for k, st in enumerate(o["steps"]):
-        d = first_diff(o["pristine"], st["defaults"])
+        # no object may be reachable from two clients, or from a client and a package-level variable
+        gl = pointers({n: v for n, v in st["defaults"].items() if not n.endswith("()")})
+        cps = [(j, pointers(cd)) for j, cd in enumerate(st["clients"]) if cd is not None]
+        for j, pj in cps:
+            for a in pj:
+                if a in gl:
+                    out.append(("client-points-into-package-default", "client %d = NewClient(%s): %s is the package-level object %s" % (j, ",".join(x["opt"] for x in prog[j]), pj[a], gl[a])))
+        for x in range(len(cps)):
+            for y in range(x + 1, len(cps)):
+                for a in cps[x][1]:
+                    if a in cps[y][1]:
+                        out.append(("clients-share-object", "clients %d and %d (%s) share one object: %s" % (cps[x][0], cps[y][0], prog_text(prog[:cps[y][0] + 1]), cps[x][1][a])))
+        if out:
+            break
+        d = first_diff(pristine, strip(st["defaults"]))
         if d:
             who = ",".join(x["opt"] for x in prog[k]) or "no options"
             out.append(("default-changed:" + d.split("/")[1], "after client %d = NewClient(%s) the package default %s differs from its value at process start" % (k, who, d)))
@@ -275,6 +316,7 @@ def oracle(o, baseline):
         for j, cd in enumerate(st["clients"]):
             if cd is None:
                 continue
+            cd = strip(cd)
             if j not in created_at:
                 created_at[j] = cd
                 if not prog[j] and baseline is not None:
@@ -291,7 +333,7 @@ def oracle(o, baseline):
 
 
 def run(ctx):
-    n = 1500 if ctx.thorough() else 150
+    n = 1500 if ctx.thorough() else 100
     proof_ok, detail = True, {}
     ok, out = ctx.regen(["config", "endpoint"])
     if not ok:
@@ -334,7 +376,7 @@ def run(ctx):
     baseline = None
     for o in obs:
         if o["prog"] and not o["prog"][0] and o["steps"][0]["outcome"] == "created":
-            baseline = o["steps"][0]["clients"][0]
+            baseline = strip(o["steps"][0]["clients"][0])
             break
     base_rest = project(baseline)[1] if baseline else None
 
@@ -358,7 +400,7 @@ def run(ctx):
             continue
         steps = []
         for st in o["steps"]:
-            dca = st["defaults"].get("uacp.DefaultClientACK")
+            dca = strip(st["defaults"]).get("uacp.DefaultClientACK")
             exp = []
             for j, cd in enumerate(st["clients"]):
                 oc = o["steps"][j]["outcome"]
@@ -412,7 +454,7 @@ def run(ctx):
     nontriv = {json.dumps(o["prog"]) for o in obs if len(o["prog"]) >= 2 and any(cl for cl in o["prog"])}
     ctx.coverage.update({
         "evaluations": len(obs), "distinct_nontrivial": len(nontriv),
-        "rule": "programs = sequences of NewClient calls, each program in a fresh process: every exported Option constructor of config.go (list regenerated from the source) alone followed by a default client, then between two default clients, then after Dialer(d) for each partially filled d (empty, only net.Dialer, only ClientACK), then %d seeded random programs (1-4 clients, 0-9 options each, arguments incl. nil/empty/boundary values, caller-built dialers, unparsable certificates, missing files); after every call all package defaults and all clients are dumped by reflection; distinct_nontrivial = distinct programs with >= 2 clients and >= 1 option" % n,
+        "rule": "programs = sequences of NewClient calls, each program in a fresh process: every exported Option constructor of config.go (list regenerated from the source) alone followed by a default client, then between two default clients, then after Dialer(d) for each partially filled d (empty, only net.Dialer, only ClientACK), then two clients that both take SecurityFromEndpoint's fallback with every option X on the later resp. the earlier one, then %d seeded random programs (1-4 clients, 0-9 options each, arguments incl. nil/empty/boundary values, caller-built dialers, unparsable certificates, missing files); after every call all package defaults and all clients are dumped by reflection, by value and with object addresses (no object may be reachable from two clients or from a client and a package variable); distinct_nontrivial = distinct programs with >= 2 clients and >= 1 option" % n,
         "samples": [{"prog": o["prog"], "outcomes": [s["outcome"] for s in o["steps"]]} for o in obs[16:18] + obs[-2:]],
         "options_exercised": used, "outcomes": outcomes, "programs_with_explicit_default_pointer_excluded_from_oracle": excluded,
         "traces_validated_against_impl": len(lines), "model_impl_mismatches": detail.get("mismatch_count", 0),
